@@ -3,3 +3,6 @@ import EpdVerif.Wire
 import EpdVerif.Ctrl.Common
 import EpdVerif.Ctrl.Ssd
 import EpdVerif.Ctrl.Uc
+import EpdVerif.Drivers.Dsl
+import EpdVerif.Drivers.Epd1in54
+import EpdVerif.Scenario
